@@ -44,11 +44,46 @@ func init() { translators["exectask"] = trExecTask }
 
 type etPkg struct {
 	funcs  map[string]*ast.FuncDecl // "Recv.name" and "name"
-	consts map[string]ast.Expr
+	consts map[string]ast.Expr      // package-level constants and variables
+	fields map[string]string        // struct field name -> chan | rpc | cmd | timer (by declared type)
+	types  []string                 // struct types of the package, sorted
+	caps   []string                 // capacities of every make(chan ...) stored in a chan field
+}
+
+// the role of a struct field is taken from its declared type, not from its name
+func etFieldKind(t ast.Expr) string {
+	switch x := t.(type) {
+	case *ast.ChanType:
+		return "chan"
+	case *ast.StarExpr:
+		if sel, ok := x.X.(*ast.SelectorExpr); ok {
+			if id, ok := sel.X.(*ast.Ident); ok {
+				switch id.Name + "." + sel.Sel.Name {
+				case "exec.Cmd":
+					return "cmd"
+				case "time.Timer":
+					return "timer"
+				case "executorcmd.RpcClient":
+					return "rpc"
+				}
+			}
+		}
+	}
+	return ""
+}
+
+func (p *etPkg) kind(e ast.Expr) string {
+	switch x := e.(type) {
+	case *ast.SelectorExpr:
+		return p.fields[x.Sel.Name]
+	case *ast.ParenExpr:
+		return p.kind(x.X)
+	}
+	return ""
 }
 
 func etLoadPkg(dir string) *etPkg {
-	p := &etPkg{funcs: map[string]*ast.FuncDecl{}, consts: map[string]ast.Expr{}}
+	p := &etPkg{funcs: map[string]*ast.FuncDecl{}, consts: map[string]ast.Expr{}, fields: map[string]string{}}
 	names, _ := filepath.Glob(filepath.Join(repo, dir, "*.go"))
 	sort.Strings(names)
 	for _, n := range names {
@@ -78,6 +113,18 @@ func etLoadPkg(dir string) *etPkg {
 				}
 			case *ast.GenDecl:
 				for _, sp := range x.Specs {
+					if ts, ok := sp.(*ast.TypeSpec); ok {
+						if st, ok := ts.Type.(*ast.StructType); ok {
+							p.types = append(p.types, ts.Name.Name)
+							for _, fl := range st.Fields.List {
+								if k := etFieldKind(fl.Type); k != "" {
+									for _, nm := range fl.Names {
+										p.fields[nm.Name] = k
+									}
+								}
+							}
+						}
+					}
 					if vs, ok := sp.(*ast.ValueSpec); ok {
 						for i, nm := range vs.Names {
 							if i < len(vs.Values) {
@@ -91,6 +138,56 @@ func etLoadPkg(dir string) *etPkg {
 	}
 	if len(p.funcs) == 0 {
 		die("exectask: no Go source found in %s", dir)
+	}
+	sort.Strings(p.types)
+	// every place that creates the pending-state channel: `x.f = make(chan T, n)` or `f: make(chan T, n)`
+	mk := func(e ast.Expr) (string, bool) {
+		c, ok := e.(*ast.CallExpr)
+		if !ok || len(c.Args) == 0 {
+			return "", false
+		}
+		if id, ok := c.Fun.(*ast.Ident); !ok || id.Name != "make" {
+			return "", false
+		}
+		if _, ok := c.Args[0].(*ast.ChanType); !ok {
+			return "", false
+		}
+		if len(c.Args) == 1 {
+			return "0", true
+		}
+		return p.ms(c.Args[1], nil), true
+	}
+	var keys []string
+	for k := range p.funcs {
+		if strings.Contains(k, ".") || p.funcs[k].Recv == nil {
+			keys = append(keys, k)
+		}
+	}
+	sort.Strings(keys)
+	seen := map[*ast.FuncDecl]bool{}
+	for _, k := range keys {
+		fd := p.funcs[k]
+		if seen[fd] || fd.Body == nil {
+			continue
+		}
+		seen[fd] = true
+		ast.Inspect(fd.Body, func(x ast.Node) bool {
+			switch v := x.(type) {
+			case *ast.AssignStmt:
+				if len(v.Lhs) == 1 && len(v.Rhs) == 1 && p.kind(v.Lhs[0]) == "chan" {
+					if c, ok := mk(v.Rhs[0]); ok {
+						p.caps = append(p.caps, c)
+					}
+				}
+			case *ast.KeyValueExpr:
+				if id, ok := v.Key.(*ast.Ident); ok && p.fields[id.Name] == "chan" {
+					if c, ok := mk(v.Value); ok {
+						p.caps = append(p.caps, c)
+					}
+				}
+			}
+			return true
+		})
 	}
 	return p
 }
@@ -299,7 +396,7 @@ func (w *etWalker) walk(n ast.Node, env etEnv, depth int) {
 				}
 			}
 		case *ast.SendStmt:
-			if etSelName(v.Chan) == "pendingFinalTaskStateCh" {
+			if w.p.kind(v.Chan) == "chan" {
 				mode := "blk"
 				if w.nb[v] {
 					mode = "nb"
@@ -307,7 +404,7 @@ func (w *etWalker) walk(n ast.Node, env etEnv, depth int) {
 				w.emit("post:" + strings.TrimPrefix(w.p.constName(v.Value, env, 0), "TASK_") + ":" + mode)
 			}
 		case *ast.UnaryExpr:
-			if v.Op == token.ARROW && etSelName(v.X) == "pendingFinalTaskStateCh" {
+			if v.Op == token.ARROW && w.p.kind(v.X) == "chan" {
 				mode := "blk"
 				if w.nb[v] {
 					mode = "nb"
@@ -327,24 +424,56 @@ func (w *etWalker) walk(n ast.Node, env etEnv, depth int) {
 				}
 			}
 			if len(v.Lhs) == 1 && len(v.Rhs) == 1 && etIsNil(v.Rhs[0]) {
-				switch etSelName(v.Lhs[0]) {
+				switch w.p.kind(v.Lhs[0]) {
 				case "rpc":
 					w.emit("rpc=nil")
-				case "taskCmd":
+				case "cmd":
 					w.emit("cmd=nil")
 				}
 			}
+		case *ast.CompositeLit: // a table replacing a chain of comparisons (log fields are not tables)
+			if etSelName(v.Type) == "Fields" {
+				break
+			}
+			for _, e := range v.Elts {
+				if kv, ok := e.(*ast.KeyValueExpr); ok {
+					e = kv.Key
+				}
+				if str, ok := strLit(e); ok {
+					w.emit(`test:"` + str + `"`)
+				}
+			}
+		case *ast.IndexExpr: // ... also when the table is a package-level variable
+			if id, ok := v.X.(*ast.Ident); ok {
+				if cl, ok := w.p.consts[id.Name].(*ast.CompositeLit); ok {
+					for _, e := range cl.Elts {
+						if kv, ok := e.(*ast.KeyValueExpr); ok {
+							e = kv.Key
+						}
+						if str, ok := strLit(e); ok {
+							w.emit(`test:"` + str + `"`)
+						}
+					}
+				}
+			}
 		case *ast.BinaryExpr:
+			if v.Op == token.GEQ || v.Op == token.GTR || v.Op == token.LEQ || v.Op == token.LSS {
+				for _, side := range []ast.Expr{v.X, v.Y} {
+					if n, isDur, ok := w.p.evalMs(env.subst(side), env, 0); ok && isDur {
+						w.emit(fmt.Sprintf("cmp:%d", n))
+					}
+				}
+			}
 			if v.Op == token.EQL || v.Op == token.NEQ {
 				for _, pair := range [][2]ast.Expr{{v.X, v.Y}, {v.Y, v.X}} {
 					a, b := pair[0], pair[1]
 					if etIsNil(b) {
-						switch etSelName(a) {
-						case "rpc":
+						switch {
+						case w.p.kind(a) == "rpc":
 							w.emit("test:rpc-nil")
-						case "taskCmd":
+						case w.p.kind(a) == "cmd":
 							w.emit("test:cmd-nil")
-						case "ProcessState":
+						case etSelName(a) == "ProcessState":
 							w.emit("test:reaped")
 						}
 					}
@@ -366,7 +495,13 @@ func (w *etWalker) walk(n ast.Node, env etEnv, depth int) {
 func (w *etWalker) call(c *ast.CallExpr, env etEnv, depth int) {
 	name, recvExpr := "", ast.Expr(nil)
 	pkgQual := ""
-	switch f := c.Fun.(type) {
+	fun := c.Fun
+	if id, ok := fun.(*ast.Ident); ok { // a method value kept in a local: f := t.m ; f(x)
+		if sel, ok := env[id.Name].(*ast.SelectorExpr); ok {
+			fun = sel
+		}
+	}
+	switch f := fun.(type) {
 	case *ast.Ident:
 		name = f.Name
 	case *ast.SelectorExpr:
@@ -374,6 +509,22 @@ func (w *etWalker) call(c *ast.CallExpr, env etEnv, depth int) {
 		recvExpr = f.X
 		if id, ok := f.X.(*ast.Ident); ok {
 			pkgQual = id.Name
+		}
+		// a method expression: (*T).m(t, x) or T.m(t, x)
+		tx := f.X
+		if pe, ok := tx.(*ast.ParenExpr); ok {
+			tx = pe.X
+		}
+		if st, ok := tx.(*ast.StarExpr); ok {
+			tx = st.X
+		}
+		if id, ok := tx.(*ast.Ident); ok && len(c.Args) >= 1 {
+			if _, isMethod := w.p.funcs[id.Name+"."+name]; isMethod && sort.SearchStrings(w.p.types, id.Name) < len(w.p.types) && w.p.types[sort.SearchStrings(w.p.types, id.Name)] == id.Name {
+				cc := *c
+				cc.Args = c.Args[1:]
+				recvExpr, pkgQual = c.Args[0], ""
+				c = &cc
+			}
 		}
 	default:
 		return
@@ -428,10 +579,10 @@ func (w *etWalker) call(c *ast.CallExpr, env etEnv, depth int) {
 	case name == "Start" && len(c.Args) == 0 && recvExpr != nil:
 		w.emit("start")
 		return
-	case name == "Close" && etSelName(recvExpr) == "rpc":
+	case name == "Close" && w.p.kind(recvExpr) == "rpc":
 		w.emit("rpcclose")
 		return
-	case name == "Stop" && etSelName(recvExpr) == "runningTimer":
+	case name == "Stop" && w.p.kind(recvExpr) == "timer":
 		w.emit("timerstop")
 		return
 	}
@@ -479,6 +630,72 @@ func (p *etPkg) tokens(recv, name string) []string {
 	w := &etWalker{p: p, nb: map[ast.Node]bool{}, active: map[string]bool{name: true}}
 	w.walk(fd.Body, etEnv{}, 0)
 	return w.toks
+}
+
+func (p *etPkg) tokensOf(fd *ast.FuncDecl) []string {
+	w := &etWalker{p: p, nb: map[ast.Node]bool{}, active: map[string]bool{fd.Name.Name: true}}
+	w.walk(fd.Body, etEnv{}, 0)
+	return w.toks
+}
+
+func etHas(toks []string, prefixes ...string) bool {
+	for _, pre := range prefixes {
+		if etIndex(toks, pre) < 0 {
+			return false
+		}
+	}
+	return true
+}
+
+// find: the functions of the package are identified by what they do (their operations), so that a
+// renamed or moved function, type or field is still found; exported method names (Kill, Launch)
+// are the stable entry points.  exported == "" looks at unexported functions / methods only.
+func (p *etPkg) find(what, exported string, must []string, mustNot []string) (*ast.FuncDecl, []string) {
+	var keys []string
+	for k := range p.funcs {
+		keys = append(keys, k)
+	}
+	sort.Strings(keys)
+	seen := map[*ast.FuncDecl]bool{}
+	var hit *ast.FuncDecl
+	var hitToks []string
+	for _, k := range keys {
+		fd := p.funcs[k]
+		if seen[fd] || fd.Body == nil {
+			continue
+		}
+		seen[fd] = true
+		if exported != "" && fd.Name.Name != exported {
+			continue
+		}
+		if exported == "" && !unicode.IsLower(rune(fd.Name.Name[0])) {
+			continue
+		}
+		toks := p.tokensOf(fd)
+		if !etHas(toks, must...) {
+			continue
+		}
+		bad := false
+		for _, m := range mustNot {
+			if etIndex(toks, m) >= 0 {
+				bad = true
+			}
+		}
+		if bad {
+			continue
+		}
+		if hit != nil {
+			// prefer the innermost one: a helper is also seen through its callers
+			if len(toks) >= len(hitToks) {
+				continue
+			}
+		}
+		hit, hitToks = fd, toks
+	}
+	if hit == nil {
+		die("exectask: no function found that does what %s does (operations %v, none of %v)", what, must, mustNot)
+	}
+	return hit, hitToks
 }
 
 // etChain: the operations occur in this order (not necessarily adjacent).  An element may list
@@ -529,28 +746,67 @@ func trExecTask() string {
 	termMs := msOf("SIGTERM_TIMEOUT")
 	intMs := msOf("SIGINT_TIMEOUT")
 	killTrMs := msOf("KILL_TRANSITION_TIMEOUT")
-	pollMs := msOf("startupPollingInterval")
-	startMs := msOf("startupTimeout")
 	sl := func(ms int64) string { return fmt.Sprintf("sleep:%d", ms) }
-
-	// ---- doLaunch: channel capacity and RUNNING timer
-	dl := p.tokens("basicTaskBase", "doLaunch")
-	etChain("doLaunch", dl, "timer:", "status:RUNNING")
-	var capv, runMs int64 = -1, -1
-	for _, t := range dl {
-		if strings.HasPrefix(t, "mkchan:") {
-			fmt.Sscan(strings.TrimPrefix(t, "mkchan:"), &capv)
+	num := func(toks []string, prefix string, last bool) int64 {
+		v := int64(-1)
+		for _, t := range toks {
+			if strings.HasPrefix(t, prefix) {
+				fmt.Sscan(strings.TrimPrefix(t, prefix), &v)
+				if !last {
+					break
+				}
+			}
 		}
-		if strings.HasPrefix(t, "timer:") {
-			fmt.Sscan(strings.TrimPrefix(t, "timer:"), &runMs)
+		return v
+	}
+
+	// ---- the functions, found by what they do (names of unexported things are free)
+	_, ck := p.find("ControllableTask.Kill", "Kill", []string{"getstate"}, nil)
+	_, bk := p.find("basicTaskBase.Kill", "Kill", []string{"status:FINISHED"}, []string{"getstate"})
+	_, ek := p.find("ensureBasicTaskKilled", "", []string{"post:", "kill:grp:KILL", "test:hook"}, []string{"status:", "getstate", "start"})
+	_, dl := p.find("the Launch of a basic task", "Launch", []string{"timer:"}, []string{"getstate"})
+	_, sb := p.find("startBasicTask", "", []string{"start", "wait", "take:", "devevent"}, nil)
+	_, tk := p.find("doTermIntKill", "", []string{"kill:pid:TERM", "kill:pid:INT", "kill:pid:KILL"}, []string{"getstate", "dial"})
+	_, cl := p.find("ControllableTask.Launch", "Launch", []string{"dial", "getstate"}, nil)
+
+	// ---- constants that have unexported names: by name, else from where they are used
+	pollMs, startMs := int64(-1), int64(-1)
+	if v, ok := p.consts["startupPollingInterval"]; ok {
+		pollMs, _, _ = p.evalMs(v, nil, 0)
+	}
+	if v, ok := p.consts["startupTimeout"]; ok {
+		startMs, _, _ = p.evalMs(v, nil, 0)
+	}
+	if g := etIndex(cl, `test:"STANDBY"`); g >= 0 {
+		if pollMs <= 0 {
+			pollMs = num(cl[g:], "sleep:", false)
+		}
+		if startMs <= 0 {
+			startMs = num(cl[g:], "cmp:", false)
 		}
 	}
+	if pollMs <= 0 || startMs <= 0 {
+		die("exectask: start-up poll interval / timeout of Launch not found among: %s", strings.Join(cl, " "))
+	}
+
+	// ---- channel capacity (wherever the channel is made) and RUNNING timer
+	etChain("Launch of a basic task", dl, "timer:", "status:RUNNING")
+	runMs := num(dl, "timer:", false)
+	if len(p.caps) == 0 {
+		die("exectask: no make(chan ...) stored in a pending-state channel field found")
+	}
+	for _, c := range p.caps {
+		if c != p.caps[0] {
+			die("exectask: the pending-state channels are made with different capacities %v (the model has one capacity)", p.caps)
+		}
+	}
+	var capv int64 = -1
+	fmt.Sscan(p.caps[0], &capv)
 	if capv < 0 || runMs < 0 {
-		die("exectask: doLaunch: make(chan ...) with a constant capacity or time.AfterFunc with a constant delay not found among: %s", strings.Join(dl, " "))
+		die("exectask: capacity of the pending-state channel (%v) or delay of the TASK_RUNNING timer is not a constant", p.caps)
 	}
 
 	// ---- ensureBasicTaskKilled
-	ek := p.tokens("basicTaskBase", "ensureBasicTaskKilled")
 	firstPost := etIndex(ek, "post:")
 	guardAt := etIndex(ek, "test:reaped")
 	guard := guardAt >= 0 && (firstPost < 0 || guardAt < firstPost)
@@ -566,37 +822,33 @@ func trExecTask() string {
 		}
 	}
 
-	// ---- basicTaskBase.Kill
-	bk := p.tokens("basicTaskBase", "Kill")
-	etChain("basicTaskBase.Kill", bk, "call:ensureBasicTaskKilled", "cmd=nil")
+	// ---- basicTaskBase.Kill: ensureBasicTaskKilled (seen through its operations) before the handle is dropped
+	etChain("basicTaskBase.Kill", bk, "test:hook", "post:KILLED:nb", "kill:grp:KILL", "cmd=nil")
 	etChain("basicTaskBase.Kill", bk, "timerstop")
 	etChain("basicTaskBase.Kill", bk, "status:FINISHED")
 
 	// ---- reaper of startBasicTask
-	sb := p.tokens("basicTaskBase", "startBasicTask")
 	etChain("startBasicTask", sb, "start", "wait", "take:nb", "devevent")
+	etChain("startBasicTask", sb, "test:hook", "test:reaped", "ret", "start") // refuses while the previous command runs
 
 	// ---- ControllableTask.Kill / doTermIntKill / Launch
-	ck := p.tokens("ControllableTask", "Kill")
 	etChain("ControllableTask.Kill", ck, "test:rpc-nil", "ret", "getstate")
 	etChain("ControllableTask.Kill", ck, "getstate", `test:"DONE"`, fmt.Sprintf("after:%d", killTrMs), "rpc=nil")
 	etChain("ControllableTask.Kill", ck, "getstate", "post:FINISHED:blk", sl(doneMs))
-	etChain("ControllableTask.Kill", ck, "post:FINISHED:blk", "pidExists", "call:doTermIntKill", "kill:grp:KILL")
-	etChain("ControllableTask.Kill", ck, "getstate", "post:KILLED:blk", "pidExists", "call:doTermIntKill", "kill:grp:KILL")
+	etChain("ControllableTask.Kill", ck, "post:FINISHED:blk", "pidExists", "kill:pid:TERM", "kill:pid:KILL", "kill:grp:KILL")
+	etChain("ControllableTask.Kill", ck, "getstate", "post:KILLED:blk", "pidExists", "kill:pid:TERM", "kill:pid:KILL", "kill:grp:KILL")
 	for _, t := range ck {
 		if strings.HasPrefix(t, "post:") && t != "post:KILLED:blk" && t != "post:FINISHED:blk" {
 			die("exectask: ControllableTask.Kill: unexpected %s", t)
 		}
 	}
-	tk := p.tokens("ControllableTask", "doTermIntKill")
 	etChain("doTermIntKill", tk, "kill:pid:TERM", sl(termMs), "pidExists", "kill:pid:INT", sl(intMs), "pidExists", "kill:pid:KILL")
 	for _, t := range tk {
 		if strings.HasPrefix(t, "kill:grp") {
 			die("exectask: doTermIntKill: unexpected %s (the model signals the target it is given)", t)
 		}
 	}
-	cl := p.tokens("ControllableTask", "Launch")
-	etChain("ControllableTask.Launch", cl, "mkchan:1", "start", "dial")
+	etChain("ControllableTask.Launch", cl, "start", "dial")
 	etChain("ControllableTask.Launch", cl, "dial", "test:rpc-nil", "wait", "take:nb", "status:var", `test:"STANDBY"`)
 	etChain("ControllableTask.Launch", cl, "getstate", `test:"STANDBY"`, `test:"DONE"`, "kill:pid:KILL", "kill:grp:KILL", "wait", "status:FAILED")
 	etChain("ControllableTask.Launch", cl, "getstate", `test:"ERROR"`, "kill:pid:KILL")
